@@ -419,7 +419,7 @@ func (g *gen) mutations(valid []byte, budgetHdrs int, directed bool) {
 		if b < 1 {
 			continue
 		}
-		for _, n := range pick(arrs, 2) {
+		for _, n := range pick(arrs, vh.Budget(2, 6)) {
 			el := valid[n.kids[0].pos:n.kids[0].end]
 			if (b+1)*len(el) > maxIn {
 				continue
@@ -428,7 +428,7 @@ func (g *gen) mutations(valid []byte, budgetHdrs int, directed bool) {
 				g.emit("atbound-arr", splice(valid, n.pos, n.end, append(anyHdr('a', c), repeatSeq(el, c)...)))
 			}
 		}
-		for _, n := range pick(strs, 2) {
+		for _, n := range pick(strs, vh.Budget(2, 6)) {
 			if b+1 > maxIn {
 				continue
 			}
@@ -436,7 +436,7 @@ func (g *gen) mutations(valid []byte, budgetHdrs int, directed bool) {
 				g.emit("atbound-bytes", splice(valid, n.pos, n.end, append(anyHdr(n.kind, c), make([]byte, c)...)))
 			}
 		}
-		for _, n := range pick(maps, 2) {
+		for _, n := range pick(maps, vh.Budget(2, 6)) {
 			if len(n.kids) < 2 || b+1 > 4096 || n.kids[0].end-n.kids[0].pos < 2 || (b+1)*(n.kids[1].end-n.kids[0].pos) > maxIn {
 				continue
 			}
@@ -751,9 +751,9 @@ func Run(t *testing.T, pkg string, types []TI) {
 	for _, ti := range types {
 		tc := ctxOf(ti)
 		// entry-point types get the larger share of the budget
-		k, hdrs := vh.Budget(2, 8), vh.Budget(2, 12)
+		k, hdrs := vh.Budget(2, 3), vh.Budget(2, 4)
 		if ti.Class != "" || ti.Net {
-			k, hdrs = vh.Budget(3, 20), vh.Budget(4, 24)
+			k, hdrs = vh.Budget(3, 6), vh.Budget(4, 8)
 		}
 		g := &gen{tc: tc, r: vh.NewRng(seedOf(vh.Seed(), pkg, ti.Name))}
 		g.emit = func(kind string, b []byte) { one(tc, kind, b) }
